@@ -88,6 +88,20 @@ def run_history(h, scratch):
                 durable = sum(1 for f in o["files"] for b, lo, hi in f if b >= first_new)
                 rec["buffer_lost"] = rec.get("buffer_lost", 0) + (durable < issued)
                 rec["mid_flush"] = rec.get("mid_flush", 0) + (0 < durable < issued)
+            # I/O fault instead of a crash: the k-th operation (a write) fails with ENOSPC.  If the call nevertheless
+            # RETURNS normally, it claims that every block of the batch is stored: the outcome is judged as a completed batch.
+            rec["io_fault"] = []
+            for k in ks:
+                if k > len(ops) or ops[k - 1] != "write":
+                    continue
+                fsrig.copy_dir(pre, d)
+                if not os.path.isdir(pre):
+                    shutil.rmtree(d, ignore_errors=True)
+                s3, _ = fsrig.call_forked(d, new, h["max"], fail_at=k)
+                if s3 == "ok":
+                    rec["io_fault"].append({"k": k, "dir": fsrig.project(d, blocks, magic)})
+                else:
+                    rec["io_fault_raised"] = rec.get("io_fault_raised", 0) + 1
             rec["steps"].append({"op": "crash", "sizes": st["sizes"], "dirs": dirs, "ops": ops, "status": status})
             break
     shutil.rmtree(scratch, ignore_errors=True)
@@ -124,10 +138,20 @@ def _run_all(hists):
     work = os.path.join(vlib.WORK, "c19")
     os.makedirs(work, exist_ok=True)
     recs = _pool().map(_job, [(i, h, work) for i, h in enumerate(hists)], chunksize=4)
-    for i, (h, r) in enumerate(zip(hists, recs)):
-        r["id"] = i
+    out = []
+    for h, r in zip(hists, recs):
         r["h"] = h
-    return recs
+        out.append(r)
+        # a swallowed I/O fault: the same history with the last call reported as completed and the directory it left
+        for v in r.get("io_fault", []):
+            last = r["steps"][-1]
+            h2 = {**h, "steps": h["steps"][:-1] + [{"op": "batch", "sizes": last["sizes"], "mode": "fork"}], "io_fault_at": v["k"]}
+            out.append({"init": r["init"], "dir0": r["dir0"], "h": h2,
+                        "steps": r["steps"][:-1] + [{"op": "batch", "sizes": last["sizes"], "ok": True, "status": "ok (write error injected)",
+                                                     "dir": v["dir"]}]})
+    for i, r in enumerate(out):
+        r["id"] = i
+    return out
 
 
 def _slim(r):
